@@ -15,6 +15,8 @@ type verifRecord struct {
 	data    string
 	undecod bool   // the decoder must reject it
 	want    string // encoding of the event when accepted
+	// anyContent: the exact encoding is the subject of C12; here only that a valid object comes out
+	anyContent bool
 }
 
 func verifRecordsFor(dec decoder.Type) []verifRecord {
@@ -27,6 +29,13 @@ func verifRecordsFor(dec decoder.Type) []verifRecord {
 	case decoder.CSV:
 		return []verifRecord{{data: "a,b,c\n", want: `{"0":"a","1":"b","2":"c"}`}, {data: "x,y\n", want: `{"0":"x","1":"y"}`},
 			{data: "q\"r\n", undecod: true}}
+	case decoder.POSTGRES:
+		return []verifRecord{{data: "2021-06-22 16:24:27 GMT [7291] => [3-1] client=c,db=d,user=u LOG:  hi\n", anyContent: true},
+			{data: "\tSELECT 1\n", undecod: true}, {data: "garbage\n", undecod: true}, {data: "\t\n", undecod: true}}
+	case decoder.SYSLOG_RFC3164:
+		return []verifRecord{{data: "<34>Oct 11 22:14:15 mymachine.example.com myproc[10]: failed\n", anyContent: true}, {data: "garbage\n", undecod: true}, {data: "<34>\n", undecod: true}}
+	case decoder.SYSLOG_RFC5424:
+		return []verifRecord{{data: "<165>1 2003-10-11T22:14:15.003Z host app - ID47 [ex@1 k=\"v\"] msg\n", anyContent: true}, {data: "garbage\n", undecod: true}, {data: "<165>1 \n", undecod: true}}
 	case decoder.NGINX_ERROR:
 		return []verifRecord{{data: "2022/08/17 10:49:27 [error] 1#2: *3 msg\n", want: `{"time":"2022/08/17 10:49:27","level":"error","pid":"1","tid":"2","cid":"3","message":"msg"}`},
 			{data: "garbage\n", undecod: true}}
@@ -37,8 +46,8 @@ func verifRecordsFor(dec decoder.Type) []verifRecord {
 // C20.H2 / C05.H3 / C12: Pipeline.In: refusal causes, exit paths and the decoded event, with the
 // event object recycled through the pool between records.
 func VerifH_C20_inRefusals() {
-	decs := []decoder.Type{decoder.RAW, decoder.JSON, decoder.CSV, decoder.NGINX_ERROR}
-	dec := decs[vf.Choose("decoder", len(decs))]
+	decs := []decoder.Type{decoder.RAW, decoder.JSON, decoder.CSV, decoder.NGINX_ERROR, decoder.POSTGRES, decoder.SYSLOG_RFC3164, decoder.SYSLOG_RFC5424}
+	dec := decs[vf.Param("DECMIN", 0)+vf.Choose("decoder", len(decs)-vf.Param("DECMIN", 0))]
 	lowMem := vf.Choose("low-memory-pool", 2) == 1
 	maxSize := []int{0, 8}[vf.Choose("max-event-size", 2)]
 	cut := maxSize != 0 && vf.Choose("cut-off", 2) == 1
@@ -48,7 +57,7 @@ func VerifH_C20_inRefusals() {
 	w := &verifWorld{streamOf: map[int64]string{}, acked: map[int64]bool{}, dropped: map[int64]bool{}, committed: map[int64]int{}, commitSeq: map[string][]int64{}, capacity: 1}
 	p := &Pipeline{settings: &Settings{Capacity: 1, MaxEventSize: maxSize, CutOffEventByLimit: cut, CutOffEventByLimitField: "cut", Antispam: AntispamSettings{Threshold: -1}},
 		eventLogMu: &sync.Mutex{}, procCount: atomic.NewInt32(1), activeProcs: atomic.NewInt32(0), decoderType: dec}
-	if dec != decoder.RAW {
+	if dec != decoder.RAW && dec != decoder.POSTGRES {
 		var err error
 		p.decoder, err = decoder.New(dec, nil)
 		if err != nil {
@@ -101,7 +110,7 @@ func VerifH_C20_inRefusals() {
 			vf.Assert(string(buf[len(r.data):]) == "NEXT", "caller-buffer-beyond-the-record-untouched")
 		}
 		if accepted {
-			verifDrain(p, r.want, false)
+			verifDrain(p, r.want, r.anyContent)
 			vf.Reach("accepted-and-decoded")
 		} else {
 			vf.Reach("refused")
